@@ -690,6 +690,16 @@ func (p *c04part) truth(cond ssa.Value, s, depth int) (val, decided bool) {
 			return !v, ok
 		}
 	case *ssa.BinOp:
+		// a nil test of a target (`t != nil && t.FixedWeight > 0`): the targets of a route are never nil (every loop over
+		// them dereferences the element), so the test is the same for every class
+		if x.Op == token.NEQ || x.Op == token.EQL {
+			for k, side := range []ssa.Value{x.X, x.Y} {
+				other := []ssa.Value{x.Y, x.X}[k]
+				if pt, isPtr := side.Type().Underlying().(*types.Pointer); isPtr && isNilConst(other) && namedIs(pt, "route.Target") {
+					return x.Op == token.NEQ, true
+				}
+			}
+		}
 		// FixedWeight (possibly clamped with min/max against a constant) compared with a constant
 		if s >= p.n {
 			return false, false
@@ -1288,7 +1298,11 @@ func c04isTargetsSlice(v ssa.Value, depth int) bool {
 			return false
 		}
 		for _, s := range sites {
-			if idx >= len(s.Common().Args) || !c04isTargetsSlice(s.Common().Args[idx], depth+1) {
+			if idx >= len(s.Common().Args) {
+				return false
+			}
+			// the list itself, or the value the caller has just made the list (`r.Targets = clone; weigh(clone)`)
+			if a := s.Common().Args[idx]; !c04isTargetsSlice(a, depth+1) && !c04storedAsTargets(a, s) {
 				return false
 			}
 		}
@@ -1487,6 +1501,25 @@ func c04structCells(v ssa.Value, isAddr bool, seen map[ssa.Value]bool, depth int
 	return nil, false
 }
 
+// c04stepOf: d is x+1, 1+x, x-(-1) (sign +1) or x-1, x+(-1) (sign -1): the operand x and the sign.
+func c04stepOf(d ssa.Value) (ssa.Value, int, bool) {
+	bo, ok := d.(*ssa.BinOp)
+	if !ok || (bo.Op != token.ADD && bo.Op != token.SUB) {
+		return nil, 0, false
+	}
+	sign := 1
+	if bo.Op == token.SUB {
+		sign = -1
+	}
+	if k, isK := c04constNum(bo.Y); isK && (k == 1 || k == -1) {
+		return bo.X, sign * int(k), true
+	}
+	if k, isK := c04constNum(bo.X); isK && (k == 1 || k == -1) && bo.Op == token.ADD {
+		return bo.Y, int(k), true
+	}
+	return nil, 0, false
+}
+
 // lin evaluates the number v (an integer, or a float that counts).
 func (p *c04part) lin(v ssa.Value, seen map[ssa.Value]bool, depth int) (c04lin, bool) {
 	var zero c04lin
@@ -1504,29 +1537,65 @@ func (p *c04part) lin(v ssa.Value, seen map[ssa.Value]bool, depth int) (c04lin, 
 	defer delete(seen, v)
 	// the definitions merged into a variable: increments by one make it a counter of the targets the increment can
 	// execute for, started at 0; otherwise all non-constant definitions must agree (a constant is a floor / default)
-	merged := func(defs []ssa.Value, isInc func(ssa.Value) (ssa.Instruction, bool)) (c04lin, bool) {
+	merged := func(defs []ssa.Value, isStep func(ssa.Value) (ssa.Instruction, int, bool)) (c04lin, bool) {
 		var res c04lin
-		var incs []ssa.Instruction
+		var steps []ssa.Instruction
+		var signs []int
 		var others []ssa.Value
 		for _, d := range defs {
-			if at, ok := isInc(d); ok {
-				incs = append(incs, at)
+			if at, sign, ok := isStep(d); ok {
+				steps = append(steps, at)
+				signs = append(signs, sign)
 			} else {
 				others = append(others, d)
 			}
 		}
-		if len(incs) > 0 {
+		if len(steps) > 0 {
+			// a counter: it starts at 0 and is incremented for the targets it counts, or it starts at a number of
+			// targets (len(Route.Targets), another count) and is decremented for the targets it leaves out
+			n := 0
 			for _, o := range others {
-				if k, ok := c04constNum(o); !ok || k != 0 {
+				if k, isK := c04constNum(o); isK {
+					if k != 0 {
+						return zero, false
+					}
+					continue
+				}
+				l, ok := p.lin(o, seen, depth+1)
+				if !ok || (n > 0 && l != res) {
 					return zero, false
 				}
+				res = l
+				n++
 			}
-			for _, at := range incs {
+			if n > 0 {
+				for _, o := range others {
+					if _, isK := c04constNum(o); isK {
+						return zero, false // started at 0 on one path and at a count on another
+					}
+				}
+			}
+			var up, down [c04maxCls]bool
+			for k, at := range steps {
 				p.noteBlock(at.Block())
 				for s := 0; s < c04maxCls; s++ {
 					if p.may(at, s, 0) {
-						res.co[s] = 1
+						if signs[k] > 0 {
+							up[s] = true
+						} else {
+							down[s] = true
+						}
 					}
+				}
+			}
+			for s := 0; s < c04maxCls; s++ {
+				switch {
+				case up[s] && down[s]:
+					return zero, false
+				case up[s]:
+					res.co[s]++
+				case down[s]:
+					res.co[s]--
 				}
 			}
 			return res, true
@@ -1555,18 +1624,13 @@ func (p *c04part) lin(v ssa.Value, seen map[ssa.Value]bool, depth int) (c04lin, 
 		}
 		return res, true // no definition at all: the zero value
 	}
-	plusOne := func(d ssa.Value, isSelf func(ssa.Value) bool) bool {
-		bo, ok := d.(*ssa.BinOp)
-		if !ok || bo.Op != token.ADD {
-			return false
+	// step: d is self+1 (sign +1) or self-1 (sign -1)
+	step := func(d ssa.Value, isSelf func(ssa.Value) bool) (int, bool) {
+		operand, sign, ok := c04stepOf(d)
+		if !ok || !isSelf(operand) {
+			return 0, false
 		}
-		if k, isK := c04constNum(bo.Y); isK && k == 1 && isSelf(bo.X) {
-			return true
-		}
-		if k, isK := c04constNum(bo.X); isK && k == 1 && isSelf(bo.Y) {
-			return true
-		}
-		return false
+		return sign, true
 	}
 	results := func(call *ssa.Call, idx int) (c04lin, bool) {
 		sc := c04repoCallee(&call.Call)
@@ -1624,11 +1688,11 @@ func (p *c04part) lin(v ssa.Value, seen map[ssa.Value]bool, depth int) (c04lin, 
 			fa, ok := u.X.(*ssa.FieldAddr)
 			return ok && fa.Field == field && isCell[fa.X]
 		}
-		return merged(defs, func(d ssa.Value) (ssa.Instruction, bool) {
-			if plusOne(d, isSelf) {
-				return at[d], true
+		return merged(defs, func(d ssa.Value) (ssa.Instruction, int, bool) {
+			if sign, ok := step(d, isSelf); ok {
+				return at[d], sign, true
 			}
-			return nil, false
+			return nil, 0, false
 		})
 	}
 	switch x := v.(type) {
@@ -1664,22 +1728,18 @@ func (p *c04part) lin(v ssa.Value, seen map[ssa.Value]bool, depth int) (c04lin, 
 					join(e)
 					continue
 				}
-				if bo, ok := e.(*ssa.BinOp); ok && bo.Op == token.ADD {
-					if k, isK := c04constNum(bo.Y); isK && k == 1 {
-						join(bo.X)
-					} else if k, isK := c04constNum(bo.X); isK && k == 1 {
-						join(bo.Y)
-					}
+				if operand, _, ok := c04stepOf(e); ok {
+					join(operand)
 				}
 				defs = append(defs, e)
 			}
 		}
 		isSelf := func(w ssa.Value) bool { return phis[w] }
-		return merged(defs, func(d ssa.Value) (ssa.Instruction, bool) {
-			if plusOne(d, isSelf) {
-				return d.(*ssa.BinOp), true
+		return merged(defs, func(d ssa.Value) (ssa.Instruction, int, bool) {
+			if sign, ok := step(d, isSelf); ok {
+				return d.(*ssa.BinOp), sign, true
 			}
-			return nil, false
+			return nil, 0, false
 		})
 	case *ssa.Parameter:
 		sites, ok := c04staticSites(x.Parent())
@@ -1762,11 +1822,11 @@ func (p *c04part) lin(v ssa.Value, seen map[ssa.Value]bool, depth int) (c04lin, 
 				fv, ok := u.X.(*ssa.FreeVar)
 				return ok && c04boundCell(fv) == cell
 			}
-			return merged(defs, func(d ssa.Value) (ssa.Instruction, bool) {
-				if plusOne(d, isSelf) {
-					return at[d], true
+			return merged(defs, func(d ssa.Value) (ssa.Instruction, int, bool) {
+				if sign, ok := step(d, isSelf); ok {
+					return at[d], sign, true
 				}
-				return nil, false
+				return nil, 0, false
 			})
 		}
 	}
